@@ -28,6 +28,19 @@ Definition judge_frame (sc : scenario) (prev_raw : option raw) (f : frame_in) (b
             let evs := events_for e a (x_main o) in
             (* a frame that does not change the state delivers no Started / Canceled / Completed *)
             (5, implb (state_eqb (sn_state p) (sn_state s)) (negb (existsb (fun ev => edge_kind (e_kind ev)) evs))) ::
+            (* an action-level JustPress on a plain binding: Fired exactly on the frame the input becomes active,
+               judged from the raw input of this frame and of the previous one *)
+            (match ab_conds b, ab_inputs b, prev_raw with
+             | [(_, CJustPress t _)], [ib], Some pr =>
+                 match ib_conds ib with
+                 | [] =>
+                     let now := is_actuated (convert (aid_dim a) (spec_read (f_raw f) (ui_any (f_raw f)) (i_pad spec) (ib_input ib))) t in
+                     let was := is_actuated (convert (aid_dim a) (spec_read pr (ui_any pr) (i_pad spec) (ib_input ib))) t in
+                     [(10, state_eqb (sn_state s) (if now && negb was then SFired else SNone))]
+                 | _ => []
+                 end
+             | _, _, _ => []
+             end) ++
             (if level_triggered b then
                (* same frame: the state is the function of THIS frame's raw input *)
                match ab_inputs b with
